@@ -2,25 +2,25 @@
 From QV.Model Require Import Base Matrix Convert Reduce.
 Open Scope Q_scope.
 
-Record cin := { c_kind : kind; c_terms : terms; c_upd : terms; c_meth : nat;     (* 0 to_pubo 1 to_qubo 2 to_quso 3 to_puso *)
-                c_deg : option nat; c_lam : lam_spec; c_pairs : list key }.
+Record cin := { d_kind : kind; d_terms : terms; d_upd : terms; d_meth : nat;     (* 0 to_pubo 1 to_qubo 2 to_quso 3 to_puso *)
+                d_deg : option nat; d_lam : lam_spec; d_pairs : list key }.
 Inductive cout := OModelOut (k : kind) (t : terms) | OErr (e : err).
 
 Definition run_case (c : cin) : cout :=
-  match bind (m_create (c_kind c) (c_terms c)) (fun m => bind (m_update m (c_upd c)) (fun m =>
-          if is_spin (c_kind c) then
-            match c_meth c with
-            | 0%nat => puso_to_pubo_m m (c_deg c) (c_lam c) (c_pairs c)
-            | 1%nat => puso_to_qubo_m m (c_lam c) (c_pairs c)
-            | 2%nat => puso_to_quso_m m (c_lam c) (c_pairs c)
-            | _ => puso_to_puso_m m (c_deg c) (c_lam c) (c_pairs c)
+  match bind (m_create (d_kind c) (d_terms c)) (fun m => bind (m_update m (d_upd c)) (fun m =>
+          if is_spin (d_kind c) then
+            match d_meth c with
+            | 0%nat => puso_to_pubo_m m (d_deg c) (d_lam c) (d_pairs c)
+            | 1%nat => puso_to_qubo_m m (d_lam c) (d_pairs c)
+            | 2%nat => puso_to_quso_m m (d_lam c) (d_pairs c)
+            | _ => puso_to_puso_m m (d_deg c) (d_lam c) (d_pairs c)
             end
           else
-            match c_meth c with
-            | 0%nat => pubo_to_pubo m (c_deg c) (c_lam c) (c_pairs c)
-            | 1%nat => pubo_to_qubo m (c_lam c) (c_pairs c)
-            | 2%nat => pubo_to_quso m (c_lam c) (c_pairs c)
-            | _ => pubo_to_puso_m m (c_deg c) (c_lam c) (c_pairs c)
+            match d_meth c with
+            | 0%nat => pubo_to_pubo m (d_deg c) (d_lam c) (d_pairs c)
+            | 1%nat => pubo_to_qubo m (d_lam c) (d_pairs c)
+            | 2%nat => pubo_to_quso m (d_lam c) (d_pairs c)
+            | _ => pubo_to_puso_m m (d_deg c) (d_lam c) (d_pairs c)
             end)) with
   | Ok r => OModelOut (kd r) (tm r)
   | Err e => OErr e
